@@ -107,17 +107,11 @@ func TestVerifC13MQTTProxy(t *testing.T) {
 		tree["port"] = port
 		// certificate fix-up: TLS needs at least one valid pair most of the time
 		useTLS, _ := tree["useTLS"].(bool)
-		pTLS := 70
-		if vf.HasKnown(vfKeyMQTLS) {
-			pTLS = 95
-		}
+		pTLS := 92 // validation checks the TLS material now: keep most TLS specs acceptable
 		if useTLS && g.chance("certificate", "fix", pTLS) {
 			tree["certificate"] = []interface{}{map[string]interface{}{"name": "c1", "cert": vfCertPEM, "key": vfKeyPEM}}
 		}
-		pRules := 80
-		if vf.HasKnown(vfKeyMQWhen) && vf.HasKnown(vfKeyMQType) {
-			pRules = 95
-		}
+		pRules := 92
 		if rs, ok := tree["rules"].([]interface{}); ok && g.chance("rules", "fix", pRules) {
 			// distinct known packet types, explicit `when`
 			types := []string{"Connect", "Publish", "Disconnect", "Subscribe", "Unsubscribe"}
